@@ -656,6 +656,37 @@ Next:
     }
   }
 
+  // Validate EVEX-Only Features
+  // ---------------------------
+
+  // Vector registers [16..31] and {evex} option are only available to instructions, and to those forms of them, which
+  // have EVEX encoding. The conditions are the same as used by the register allocator to restrict registers to [0..15].
+  {
+    bool uses_vec_hi = (combined_reg_mask & 0xFFFF0000u) != 0;
+
+    if (uses_vec_hi || Support::test(options, InstOptions::kX86_Evex)) {
+      bool evex_encodable = common_info.has_flag(InstDB::InstFlags::kEvex);
+
+      if (evex_encodable && common_info.has_flag(InstDB::InstFlags::kVex) && !common_info.has_flag(InstDB::InstFlags::kEvexCompat)) {
+        if (common_info.has_flag(InstDB::InstFlags::kEvexKReg)) {
+          // EVEX encodable only if the first operand is K register (compare instructions).
+          evex_encodable = op_count > 0 && operands[0].is_mask_reg();
+        }
+        else if (common_info.has_flag(InstDB::InstFlags::kEvexTwoOp)) {
+          // EVEX encodable only if the instruction has two operands (gather instructions).
+          evex_encodable = op_count == 2;
+        }
+        else {
+          evex_encodable = false;
+        }
+      }
+
+      if (ASMJIT_UNLIKELY(!evex_encodable)) {
+        return make_error(uses_vec_hi ? Error::kInvalidPhysId : Error::kInvalidInstruction);
+      }
+    }
+  }
+
   // Validate AVX512 Options
   // -----------------------
 
